@@ -103,6 +103,8 @@ class MaxDepthDecider(BaseDecider):
         alternatives = [
             x for x in alternatives if self.grammar.get_distance_to_terminal(x) <= (self.max_depth - ctx.depth)
         ]
+        if not alternatives:
+            raise SynthesisException(f"No alternative of {ty} fits the remaining depth ({self.max_depth - ctx.depth}).")
         return self.random.choice(alternatives)
 
     def validate(self) -> None:
@@ -139,6 +141,8 @@ class FullDecider(MaxDepthDecider):
             c_alternatives = [
                 x for x in alternatives if self.grammar.get_distance_to_terminal(x) <= (self.max_depth - ctx.depth)
             ]
+        if not c_alternatives:
+            raise SynthesisException(f"No alternative of {ty} fits the remaining depth ({self.max_depth - ctx.depth}).")
         return self.random.choice(c_alternatives)
 
 
@@ -169,6 +173,8 @@ class PositionIndependentGrowDecider(MaxDepthDecider):
             c_alternatives = baseline
         if not c_alternatives:
             c_alternatives = baseline
+        if not c_alternatives:
+            raise SynthesisException(f"No alternative of {ty} fits the remaining depth ({self.max_depth - ctx.depth}).")
         return self.random.choice(c_alternatives)
 
 
